@@ -192,7 +192,8 @@ class DotSpace(Subspace):
 
     def __init__(self, name, r, c, seed=0):
         self.name, self.r, self.c = name, r, c
-        self.ws = W.WordSpace([0, 1, -1, 2], r * c, r * c)
+        # 3x3: entries from {0,1,-1} (19 683 matrices), smaller shapes also with 2
+        self.ws = W.WordSpace([0, 1, -1] if r * c >= 9 else [0, 1, -1, 2], r * c, r * c)
         self.warm_key = "dot"
 
     def size(self):
@@ -215,7 +216,7 @@ class DotSpace(Subspace):
             for cont, dt in (("ndarray", "i8"), ("ndarray", "f8"), ("pandas", "f8"), ("polars", "i8")):
                 Am = A.astype(dt)
                 if cont == "pandas":
-                    arg = pd.DataFrame(Am, index=list("xyz")[:r], columns=list("pq")[:c])
+                    arg = pd.DataFrame(Am, index=list("xyz")[:r], columns=list("pqr")[:c])
                 elif cont == "polars":
                     arg = pl.DataFrame({f"c{j}": Am[:, j] for j in range(c)})
                 else:
